@@ -79,6 +79,9 @@ class PureLayer:
                 mod, origin, seq = LiveMedia.calculate_media_segment_index(None, mode, rep, timing, None, key)
         except ValueError:
             return {'status': 404, 'mod': 0, 'origin': 0, 'seq': 0}
+        except Exception:
+            # the request handler turns ValueError into 404; anything else leaves it as a 500
+            return {'status': 500, 'mod': 0, 'origin': 0, 'seq': 0}
         # generate_media_segment asserts these before loading the fragment
         if not (isinstance(mod, int) and isinstance(origin, int) and 0 <= mod <= rep.num_media_segments):
             return {'status': 500, 'mod': 0, 'origin': 0, 'seq': 0}
@@ -87,7 +90,12 @@ class PureLayer:
     def observe_live(self, tid: int, s: dict[str, Any]) -> dict[str, Any]:
         """Run one model state on the real code; returns the trace line."""
         ref, timing, rep = self.make(s['lay'], s['e'], s['o'])
-        tl = self.expand(rep.generateSegmentTimeline())
+        try:
+            tl = self.expand(rep.generateSegmentTimeline())
+        except Exception:
+            # the manifest that would carry this timeline is a 500: nothing is advertised by $Time$ (the trace spec
+            # compares the timeline with the model's, so the loss is reported, not hidden)
+            tl = []
         first, last = rep.calculate_first_and_last_segment_number()
         nkeys = list(s['nkeys'])
         line = {
